@@ -15,15 +15,17 @@ def run(ctx):
                        "5000 are validated by Trace_RPC. distinct_nontrivial = batches + recorded requests.")
     ctx.assumptions += ["a server that cannot be started (ports, binary) is a broken check (exit 2), never a violation"]
     ctx.design("MC_RPC", "MC_RPC.cfg", label="batch semantics")
+    if thorough:
+        ctx.design("MC_RPC", ctx.cfg_variant("MC_RPC.cfg", dict(MaxBatch=3, MaxReqs=1)), label="batches of 3")
     ctx.negative_control("MC_RPC", ctx.cfg_variant("MC_RPC.cfg", dict(NoNilCheck="TRUE")), label="neg:NoNilCheck")
     path = os.path.join(ctx.work, "rpc.ndjson")
-    r = ctx.gen_to_file("MC_RPC", ctx.cfg_variant("MC_RPC.cfg", dict(Emit="TRUE", MaxReqs=0)), path, workers=4, label="gen-batches")
+    r = ctx.gen_to_file("MC_RPC", ctx.cfg_variant("MC_RPC.cfg", dict(Emit="TRUE", MaxReqs=0, MaxBatch=3 if thorough else 2)), path, workers=4, label="gen-batches")
     if r["emitted"] < 100:
         raise Broken("MC_RPC emitted too few batches")
-    ctx.run_replay("replay-rpc", ["-in", path, "-seed", seed, "-updog", updog, "-stride", "1" if thorough else "4"] + (["-binprobe"] if ctx.pid == "C13" else []), "replay-rpc", sigkeys=("kind",), timeout=3000)
+    ctx.run_replay("replay-rpc", ["-in", path, "-seed", seed, "-updog", updog, "-stride", "16" if thorough else "4"] + (["-binprobe"] if ctx.pid == "C13" else []), "replay-rpc", sigkeys=("kind",), timeout=3000)
     ctx.cov["exhaustive"] = True
     tr = os.path.join(ctx.work, "rpc_trace.ndjson")
-    ctx.record("record-rpc", ["-seed", seed, "-updog", updog, "-n", "1500" if thorough else "300"], tr, timeout=3000)
+    ctx.record("record-rpc", ["-seed", seed, "-updog", updog, "-n", "4000" if thorough else "300"], tr, timeout=3000)
     ctx.check_trace("Trace_RPC", "Trace_RPC.cfg", tr, "trace-rpc", must_have=("Request", "Alive"), run_marker="Setup")
 
 
